@@ -458,7 +458,7 @@ class MatWorld(World):
         """(u_n bytes, committed internal variables); a group whose state was never touched is the virgin (zero) state,
         whether or not its zero array has been created yet."""
         sim = self.sim
-        zo = getattr(sim, "_InElastic__zOld")
+        zo = simlib.priv(sim, "_InElastic__zOld")
         return sim.displacement.tobytes(), {str(k): np.array(v).tobytes() for k, v in zo.items() if np.any(np.array(v))}
 
     def _apply_sim(self, op):
@@ -517,10 +517,10 @@ class MatWorld(World):
             self.sim_solved_since_commit = True
             return "ok"
         if name == "sim_save":
-            zo0 = {str(k): np.array(v) for k, v in getattr(sim, "_InElastic__zOld").items()}
+            zo0 = {str(k): np.array(v) for k, v in simlib.priv(sim, "_InElastic__zOld").items()}
             with ctx.sut():
                 sim.Save_Iter()
-            zo1 = {str(k): np.array(v) for k, v in getattr(sim, "_InElastic__zOld").items()}
+            zo1 = {str(k): np.array(v) for k, v in simlib.priv(sim, "_InElastic__zOld").items()}
             ctx.probe("sim_state_committed")
             if not getattr(self, "sim_solved_since_commit", False):
                 # nothing was solved since the last commit / restore: saving again (a hold, a checkpoint) commits the
